@@ -15,7 +15,7 @@ import (
 // loop header that does neither drops the box and everything in it.
 func c09Conserve(c *core.Check) {
 	p := c.Prog
-	r := c.Rule("R11", "the anonymous table pass loses no box: in wrapImproperIterator.Next every child taken from the input is stored as the box to return, stacked, or appended to the list of improper children before the next child is taken (every iteration of the loop passes through one of the three), and a child is handed on unwrapped only when it passed the test of the rule being applied", 3)
+	r := c.Rule("R11", "the anonymous table pass loses no box: in wrapImproperIterator.Next every child taken from the input is stored as the box to return, stacked, or appended to the list of improper children before the next child is taken (every iteration of the loop passes through one of the three), and a child is handed on unwrapped only when it passed the test of the rule being applied", 1)
 	fn := p.Method("html/boxes", "wrapImproperIterator", "Next")
 	if fn == nil {
 		r.Anchor("html/boxes.(*wrapImproperIterator).Next")
